@@ -398,7 +398,7 @@ static void run_c09_buffers(int zlo, int zhi) {
       proc.getUtcOffset(t);
       g_evals++;
       uint8_t hw = proc.getTransitionHighWater();
-      if (hw > recorded || hw >= 8) {
+      if (hw >= recorded || hw >= 8) {
         fail(fmt("C09 zonedbx %s year %d: transition pool high water %d, recorded buffer size %d, capacity 8", extended::ZoneInfoBroker(info).name(), y, hw, recorded));
         if (g_fails >= MAX_FAILS) return;
       }
